@@ -170,7 +170,16 @@ def replay(obd, cex):
             g, _ = scen.attribution(st)
             gt, _ = scen.attribution(st_t)
             detail["disk_differs"] = g != gt or set(st.trees) != set(st_t.trees)
-            return dict(reproduced=bool(detail["disk_differs"]) or "get_setmap" in str(detail.get("why")), detail=detail)
+            # the canonical spelling on disk against the reference preprocessor (a change that breaks link-free aliases
+            # such as "sub/../sub/h.h" breaks the twin as well: spelled and canonical run then agree with each other)
+            exp, _ = ref_cpp.run_platforms(scen.build_fs(files), {pl: [scen.entry(e["file"][len(scratch):], e["defines"],
+                                                                  [i[len(scratch):] for i in e["include_paths"]]) for e in es]
+                                                                  for pl, es in conf_t.items()})
+            root = os.path.realpath(scratch)
+            disk_t = {pl: {(fn[len(root):], ln) for fn, ln in v} for pl, v in gt.items()}
+            detail["disk_twin_differs_from_reference"] = any(disk_t.get(pl, set()) != exp[pl] for pl in conf_t)
+            return dict(reproduced=bool(detail["disk_differs"]) or bool(detail["disk_twin_differs_from_reference"])
+                        or "get_setmap" in str(detail.get("why")), detail=detail)
         finally:
             shutil.rmtree(scratch, ignore_errors=True)
     except Exception as e:
